@@ -14,6 +14,7 @@ RULE = ("random well-formed text files: dimension sizes 1-6, column subsets (dat
 RULE += " " + 'Decimal values beyond single precision in every field.'
 RULE += " " + 'Rounds 9-10: member columns with 1-based or arbitrary ascending labels.'
 RULE += " " + 'Rounds 11-12: metadata lines after the header, between rows or at the end of the file.'
+RULE += " " + 'Rounds 13-14: the numeric part of p/q/e column names in other spellings of the same number (p1e1, p+2, q.5, q9e-1, e+1, e01, p5.0).'
 ASSUMPTIONS = ["no duplicated (time, lead time, location) rows; locations without an id column are identified by lat/lon/elev",
                "numbers in the file are short exact decimals"]
 REQUIRED_COUNTERS = ["files_read", "cells_compared", "locations_compared", "metadata_checks"]
